@@ -25,6 +25,10 @@ const MAX_MACRO_LINE: usize = 64 * 1024;
 /// How deep macro calls may be nested
 const MAX_MACRO_DEPTH: usize = 64;
 
+/// How many macro calls may be expanded in one build: macros which call other macros
+/// several times multiply, a few lines give millions of expansions
+const MAX_MACRO_EXPANSIONS: usize = 1 << 18;
+
 #[derive(Clone, PartialEq, Eq, Debug)]
 pub struct BuildResultPass0 {
     // collect of segments
@@ -46,6 +50,8 @@ impl BuildResultPass0 {
 pub struct Pass0Context {
     /// nesting level of macro expansion which is in progress
     pub macro_depth: Cell<usize>,
+    /// count of macro calls which are expanded already
+    pub expansions: Cell<usize>,
     pub current_path: PathBuf,
     pub include_paths: RefCell<Paths>,
     // common context
@@ -97,6 +103,7 @@ pub fn build_pass_0(
 ) -> Result<BuildResultPass0, Error> {
     let context = Pass0Context {
         macro_depth: Cell::new(0),
+        expansions: Cell::new(0),
         current_path: PathBuf::new(),
         include_paths: RefCell::new(common_context.include_paths.borrow().clone()),
         common_context: common_context.clone(),
@@ -130,6 +137,14 @@ fn pass0_internal(
                         bail!(
                             "macro {} is recursive or nested too deep, {}",
                             macro_name,
+                            line
+                        );
+                    }
+                    context.expansions.set(context.expansions.get() + 1);
+                    if context.expansions.get() > MAX_MACRO_EXPANSIONS {
+                        bail!(
+                            "more than {} macro calls are expanded, {}",
+                            MAX_MACRO_EXPANSIONS,
                             line
                         );
                     }
